@@ -800,41 +800,59 @@ def assembleErrors {ε ω κ : Type} (pre : Pre ε ω κ) (algo : Option (AlgoVi
     | none => .none
     | some a => algoErrors a
 
-/-- `add_errors` is only ever applied to a record without errors (so it is `from_iter`), and the
-record is in canonical form. -/
+/-- the outputs of the assembled audit, read off the inputs: the first stage's outputs, followed by
+the algo output whenever generation ran and returned something non-empty (with or without
+unrecoverable errors — nothing generated is dropped) -/
+def assembleOutputs {ε ω κ : Type} (pre : Pre ε ω κ) (algo : Option (AlgoView ω κ)) : List ω :=
+  match pre with
+  | .shutdown _ => pre.audit.outputs.asRef
+  | .commandFatal _ _ _ => pre.audit.outputs.asRef
+  | _ =>
+    match algo with
+    | none => pre.audit.outputs.asRef
+    | some a => if a.isEmpty then pre.audit.outputs.asRef else pre.audit.outputs.asRef ++ [a.asOutput]
+
+/-- `add_errors` is only ever applied to a record without errors (so it is `from_iter`), the
+record is in canonical form, and its outputs are `assembleOutputs`. -/
 theorem assemble_spec {ε ω κ : Type} (pre : Pre ε ω κ) (algo : Option (AlgoView ω κ)) :
     ∃ p, assemble pre algo = .process p ∧ p.event = pre.audit.event ∧
       p.errors = assembleErrors pre algo ∧ p.WF ∧
+      p.outputs.asRef = assembleOutputs pre algo ∧
       (∀ a u, algo = some a → a.isEmpty = false → a.unrecoverable = some u →
         (∀ e, pre ≠ .shutdown e) → (∀ e u' o, pre ≠ .commandFatal e u' o) →
-        pre.audit.errors = .none ∧ p = pre.audit.addErrors u.intoIter) := by
+        (pre.audit.addOutput a.asOutput).errors = .none ∧
+          p = (pre.audit.addOutput a.asOutput).addErrors u.intoIter) := by
   cases pre with
   | shutdown e =>
-    exact ⟨_, rfl, rfl, rfl, ⟨trivial, trivial⟩, fun _ _ _ _ _ h _ => absurd rfl (h e)⟩
+    exact ⟨_, rfl, rfl, rfl, ⟨trivial, trivial⟩, rfl, fun _ _ _ _ _ h _ => absurd rfl (h e)⟩
   | commandFatal e u o =>
-    exact ⟨_, rfl, rfl, rfl, ⟨trivial, NOM.fromIter_canonical _⟩,
+    exact ⟨_, rfl, rfl, rfl, ⟨trivial, NOM.fromIter_canonical _⟩, rfl,
       fun _ _ _ _ _ _ h => absurd rfl (h e u o)⟩
   | command e o =>
     cases algo with
-    | none => exact ⟨_, rfl, rfl, rfl, ⟨trivial, trivial⟩, fun _ _ h => by cases h⟩
+    | none => exact ⟨_, rfl, rfl, rfl, ⟨trivial, trivial⟩, rfl, fun _ _ h => by cases h⟩
     | some a =>
       cases hE : a.isEmpty with
       | true =>
         refine ⟨(Pre.command e o).audit, by simp [assemble, hE], rfl,
-          by simp [assembleErrors, algoErrors, hE, Pre.audit, ProcessAudit.withOutput], ⟨trivial, trivial⟩, ?_⟩
+          by simp [assembleErrors, algoErrors, hE, Pre.audit, ProcessAudit.withOutput], ⟨trivial, trivial⟩,
+          by simp [assembleOutputs, hE], ?_⟩
         intro a' u h1 h2; cases h1; rw [hE] at h2; cases h2
       | false =>
         cases hU : a.unrecoverable with
         | some u =>
-          refine ⟨(Pre.command e o).audit.addErrors u.intoIter, by simp [assemble, hE, hU], rfl, ?_,
-            ProcessAudit.addErrors_wf (ProcessAudit.withOutput_wf e o) _, ?_⟩
+          refine ⟨((Pre.command e o).audit.addOutput a.asOutput).addErrors u.intoIter,
+            by simp [assemble, hE, hU], rfl, ?_,
+            ProcessAudit.addErrors_wf (ProcessAudit.addOutput_wf (ProcessAudit.withOutput_wf e o) _) _, ?_, ?_⟩
           · simp [assembleErrors, algoErrors, hE, hU, Pre.audit, ProcessAudit.withOutput, ProcessAudit.addErrors,
-              NOM.extend_none]
+              ProcessAudit.addOutput, NOM.extend_none]
+          · rw [ProcessAudit.addErrors_outputs, ProcessAudit.addOutput_outputs]; simp [assembleOutputs, hE]
           · intro a' u' h1 _ h3 _ _; cases h1; rw [hU] at h3; cases h3; exact ⟨rfl, rfl⟩
         | none =>
           refine ⟨(Pre.command e o).audit.addOutput a.asOutput, by simp [assemble, hE, hU], rfl, ?_,
-            ProcessAudit.addOutput_wf (ProcessAudit.withOutput_wf e o) _, ?_⟩
+            ProcessAudit.addOutput_wf (ProcessAudit.withOutput_wf e o) _, ?_, ?_⟩
           · simp [assembleErrors, algoErrors, hE, hU, Pre.audit, ProcessAudit.withOutput, ProcessAudit.addOutput]
+          · rw [ProcessAudit.addOutput_outputs]; simp [assembleOutputs, hE]
           · intro a' u' h1 _ h3; cases h1; rw [hU] at h3; cases h3
   | update e o =>
     have hwf : (Pre.update e o : Pre ε ω κ).audit.WF := by cases o <;> exact ⟨trivial, trivial⟩
@@ -842,26 +860,29 @@ theorem assemble_spec {ε ω κ : Type} (pre : Pre ε ω κ) (algo : Option (Alg
     cases algo with
     | none =>
       exact ⟨(Pre.update e o).audit, by simp [assemble], rfl, by simp [assembleErrors, herr], hwf,
-        fun _ _ h => by cases h⟩
+        by simp [assembleOutputs], fun _ _ h => by cases h⟩
     | some a =>
       cases hE : a.isEmpty with
       | true =>
         refine ⟨(Pre.update e o).audit, by simp [assemble, hE], rfl, by simp [assembleErrors, algoErrors, hE, herr],
-          hwf, ?_⟩
+          hwf, by simp [assembleOutputs, hE], ?_⟩
         intro a' u h1 h2; cases h1; rw [hE] at h2; cases h2
       | false =>
         cases hU : a.unrecoverable with
         | some u =>
-          refine ⟨(Pre.update e o).audit.addErrors u.intoIter, by simp [assemble, hE, hU], rfl, ?_,
-            ProcessAudit.addErrors_wf hwf _, ?_⟩
-          · simp [assembleErrors, algoErrors, hE, hU, ProcessAudit.addErrors, herr, NOM.extend_none]
+          refine ⟨((Pre.update e o).audit.addOutput a.asOutput).addErrors u.intoIter,
+            by simp [assemble, hE, hU], rfl, ?_,
+            ProcessAudit.addErrors_wf (ProcessAudit.addOutput_wf hwf _) _, ?_, ?_⟩
+          · simp [assembleErrors, algoErrors, hE, hU, ProcessAudit.addErrors, ProcessAudit.addOutput, herr,
+              NOM.extend_none]
+          · rw [ProcessAudit.addErrors_outputs, ProcessAudit.addOutput_outputs]; simp [assembleOutputs, hE]
           · intro a' u' h1 _ h3 _ _; cases h1; rw [hU] at h3; cases h3; exact ⟨herr, rfl⟩
         | none =>
           refine ⟨(Pre.update e o).audit.addOutput a.asOutput, by simp [assemble, hE, hU], rfl, ?_,
-            ProcessAudit.addOutput_wf hwf _, ?_⟩
+            ProcessAudit.addOutput_wf hwf _, ?_, ?_⟩
           · simp [assembleErrors, algoErrors, hE, hU, ProcessAudit.addOutput, herr]
+          · rw [ProcessAudit.addOutput_outputs]; simp [assembleOutputs, hE]
           · intro a' u' h1 _ h3; cases h1; rw [hU] at h3; cases h3
-
 
 /-! ### one `Engine::process` -/
 
@@ -970,5 +991,41 @@ theorem assembleErrors_nonfatal {ε : Type} (pre : Pre ε Out Nat) (en : Bool) (
   | commandFatal e u o => exact absurd rfl (h2 e u o)
   | command e o => cases en <;> rfl
   | update e o => cases en <;> rfl
+
+
+theorem assembleOutputs_nonfatal {ε : Type} (pre : Pre ε Out Nat) (en : Bool) (g : GenOut)
+    (h1 : ∀ e, pre ≠ .shutdown e) (h2 : ∀ e u o, pre ≠ .commandFatal e u o) :
+    assembleOutputs pre (if en then some ⟨g.isEmpty, g.unrecoverableErrors, .algo⟩ else none) =
+      pre.audit.outputs.asRef ++ (if en && !g.isEmpty then [Out.algo] else []) := by
+  cases pre with
+  | shutdown e => exact absurd rfl (h1 e)
+  | commandFatal e u o => exact absurd rfl (h2 e u o)
+  | command e o => cases en <;> cases g.isEmpty <;> simp [assembleOutputs]
+  | update e o => cases en <;> cases g.isEmpty <;> simp [assembleOutputs]
+
+theorem sendRequests_isEmpty (dead : Nat → Bool) (reqs : List Req) :
+    (sendRequests dead reqs).isEmpty = reqs.isEmpty := by
+  rw [sendRequests, SendRequestsOutput.isEmpty_ofResults]; cases reqs <;> rfl
+
+theorem NOM.fromIter_isNone {α : Type} (l : List α) : (NOM.fromIter l).isNone = l.isEmpty := by
+  match l with
+  | [] => rfl
+  | [_] => rfl
+  | _ :: _ :: _ => rfl
+
+theorem filter_isEmpty_split {α : Type} (p : α → Bool) (l : List α) :
+    ((l.filter (!p ·)).isEmpty && (l.filter p).isEmpty) = l.isEmpty := by
+  cases l with
+  | nil => rfl
+  | cons x xs => cases hp : p x <;> simp [hp]
+
+/-- generation produced nothing at all iff the strategy generated nothing -/
+theorem generateAlgoOrders_isEmpty (dead : Nat → Bool) (c o : List Req) :
+    (generateAlgoOrders dead c o).isEmpty = (c.isEmpty && o.isEmpty) := by
+  simp only [GenerateAlgoOrdersOutput.isEmpty, SendCancelsAndOpensOutput.isEmpty, generateAlgoOrders,
+    sendRequests_isEmpty, NOM.fromIter_isNone]
+  rw [← filter_isEmpty_split refused c, ← filter_isEmpty_split refused o]
+  cases (c.filter (!refused ·)).isEmpty <;> cases (o.filter (!refused ·)).isEmpty <;>
+    cases (c.filter refused).isEmpty <;> cases (o.filter refused).isEmpty <;> rfl
 
 end BarterModel.Collections
